@@ -401,7 +401,11 @@ impl StrExt for str {
             // The word characters in ASCII compatible mode (with the `-u` flag) match the
             // definition in the spec: any character not in the set `[A-Za-z0-9_]`.
             let regex = format!(r"(?-u:^|\W|\b){}(?-u:\b|\W|$)", chunks.concat());
-            let re = Regex::new(&regex).expect("regex construction should succeed");
+            // The pattern comes from the push rule, the construction fails if the compiled regex
+            // would exceed the size limit (e.g. a pattern with a very long run of `?`).
+            let Ok(re) = Regex::new(&regex) else {
+                return false;
+            };
             re.is_match(self.as_bytes())
         } else {
             // Look at the matches one word at a time. This is a loop rather than a recursion so
